@@ -489,17 +489,21 @@ def buildTrieM (L skip : Nat) (ops : List (Key × VH)) : Outcome MultiVUErr Node
   if buildTrieSlicePanics L skip ops then .panic "update.rs:163/203 key slice out of range"
   else .ok (buildTrie H skip ops)
 
+/-- the `up_layers` computation of `hash_and_compact_terminal` (multi_proof.rs:826-841) -/
+def upLayers (t : VPath VH) (next : Option (VPath VH)) : Outcome MultiVUErr Nat :=
+  match next with
+  | some nt =>
+    let n := shared t.terminal.path nt.terminal.path
+    if n == t.depth then .err .pathPrefixOfAnother
+    else checkedSub "multi_proof.rs:838 skip - (n + 1)" t.depth (n + 1)
+  | none => pure t.depth
+
 /-- mirror of `hash_and_compact_terminal` -/
 def hashAndCompactTerminal (L : Nat) (pend : Stack Node) (t : VPath VH) (next : Option (VPath VH))
     (cs : CommonSiblings Node) (ops : List (Key × Option VH)) :
     Outcome MultiVUErr (Stack Node × CommonSiblings Node) := do
   let skip := t.depth
-  let up ← (match next with
-    | some nt =>
-      let n := shared t.terminal.path nt.terminal.path
-      if n == skip then .err .pathPrefixOfAnother
-      else checkedSub "multi_proof.rs:838 skip - (n + 1)" skip (n + 1)
-    | none => pure skip)
+  let up ← upLayers t next
   let sub ← buildTrieM H L skip (leafOpsSpliced t.terminal.asLeaf ops)
   let pth ← sliceUpTo "multi_proof.rs:853 path()[..terminal.depth]" t.terminal.path t.depth
   let r ← hctLoop H pth up skip sub pend cs
